@@ -139,10 +139,12 @@ def run_check(prop, tier, seed, replay=None):
                 continue
             hit = False
             if "witness" in f:
+                open_ids = {g["id"] for g in run.findings if g.get("status", "open") == "open"}
                 for fl in prop.oracle(f["witness"], run):
-                    if prop.classify(f["witness"], fl) == f["id"]:
+                    cid = prop.classify(f["witness"], fl)
+                    if cid == f["id"]:
                         hit = True
-                    else:
+                    elif cid not in open_ids:
                         run.failures.append((f["witness"], fl))
             if hit:
                 line = "KNOWN-FINDING: property=%s %s [%s]" % (prop.id, f["what_fails"], f["id"])
